@@ -125,7 +125,7 @@ def write_cfg(name, spec="Spec", constants=None, invariants=(), properties=(), p
 
 
 _REPLAY_RE = re.compile(r'^<<"REPLAY", (".*")>>\s*$')
-_COV_RE = re.compile(r'^<(\w+) line (\d+), col \d+ to line \d+, col \d+ of module (\w+)>: (\d+):(\d+)')
+_COV_RE = re.compile(r'^<(\w+) line (\d+), col \d+ to line \d+, col \d+ of module (\w+)(?: \([\d ]+\))?>: (\d+):(\d+)')
 
 
 def run_tlc(module, cfg, tag, workers=8, timeout=1800, env_extra=None, coverage=True, heap="8g",
@@ -145,6 +145,8 @@ def run_tlc(module, cfg, tag, workers=8, timeout=1800, env_extra=None, coverage=
         cmd += ["-coverage", "1"]
     if simulate:
         cmd += ["-simulate", "num=%d" % simulate]
+        if env_extra and env_extra.get("_SEED"):
+            cmd += ["-seed", env_extra["_SEED"]]
     if depth:
         cmd += ["-depth", str(depth)]
     cmd.append(os.path.join(SPEC, module + ".tla"))
